@@ -52,6 +52,8 @@ Clauses(r) ==
     CASE r.k = "block"    -> BlockClauses(r)
       [] r.k = "cview"    -> CviewClauses(r)
       [] r.k = "asscalar" -> AsScalarClauses(r)
+      [] r.k = "csb"      -> << <<"common_scalar_backend = builtin backend of the scalar type with the higher precision",
+                                     r.chosen_is_scalar /\ r.chosen = (IF r.s1 > r.s2 THEN r.s1 ELSE r.s2)>> >>
       [] r.k = "asblock"  -> << <<"as_block smoother = block smoother on the block matrix", r.same \/ r.reldiff_md <= -12000>> >>
       [] r.k = "forms"    -> << <<"every block formulation solves the scalar system truthfully and all agree", Len(r.forms) >= 2 /\ FormsOK(r)>> >>
       [] r.k = "cforms"   -> << <<"complex system (scalar / block value type) and its real form have the same solution", Len(r.forms) >= 2 /\ FormsOK(r)>> >>
